@@ -106,7 +106,7 @@ package dns
 //@   callsite "TsigGenerateWithProvider" same: arg0 == m && arg2 == requestMAC && arg3 == timersOnly
 //@ func TsigVerify [C11]
 //@   opt no-safety
-//@   callsite "tsigVerify" same: same(arg0, msg) && arg2 == requestMAC && arg3 == timersOnly && (callres("Unix") >= 0 ==> arg4 == callres("Unix"))
+//@   callsite "tsigVerify" same: same(arg0, msg) && same(arg2, old(requestMAC)) && arg3 == old(timersOnly) && (callres("Unix") >= 0 ==> arg4 == callres("Unix"))
 //@   exit res: ret0 == callres("tsigVerify")
 //@ func TsigVerifyWithProvider [C11]
 //@   opt no-safety
